@@ -34,10 +34,10 @@ def render_operand(d, P, Q, role, ity):
 CMP = {"lt": "<", "le": "<=", "gt": ">", "ge": ">="}
 
 
-def render_header(k, it):
-    init = render_operand(k["ci"], "ip", "iq", "init", k["ity"])
-    bound = render_operand(k["cb"], "bp", "bq", "bound", k["ity"])
-    step = render_operand(k["cs"], "sp", "sq", "step", k["ity"])
+def render_header(k, it, names=ARGS):
+    init = render_operand(k["ci"], names[0], names[1], "init", k["ity"])
+    bound = render_operand(k["cb"], names[2], names[3], "bound", k["ity"])
+    step = render_operand(k["cs"], names[4], names[5], "step", k["ity"])
     check = ("%s %s %s" % (it, CMP[k["cmp"]], bound)) if k["left"] else ("%s %s %s" % (bound, CMP[k["cmp"]], it))
     upd = {"preinc": "++" + it, "postinc": it + "++", "predec": "--" + it, "postdec": it + "--",
            "addeq": "%s += %s" % (it, step), "subeq": "%s -= %s" % (it, step)}[k["upd"]]
@@ -54,6 +54,41 @@ def render_kernel(name, k):
     return "@kernel void %s(%s) {\n%s}\n" % (name, sig, body)
 
 
+N_LO, N_HI = -2, 3                 # recording window of the nests (per iterator) + two overflow digits
+NW = N_HI - N_LO + 1 + 2
+
+
+def nest_names(j):
+    return ["p%d" % j, "z%d" % j, "q%d" % j, "z%d" % j, "z%d" % j, "z%d" % j]
+
+
+def render_nest(name, k):
+    n = len(k["loops"])
+    its = "abcdef"[:n]
+    sig = ", ".join("const int p%d, const int q%d" % (j, j) for j in range(n)) + ", int *out"
+    body, ind = "", "  "
+    for j, sh in enumerate(k["loops"]):
+        body += "%sfor (%s; @%s) {\n" % (ind, render_header(sh, its[j], nest_names(j)), "outer" if j < k["nouter"] else "inner")
+        ind += "  "
+    cell = "RECN(%s)" % its[0]
+    for j in range(1, n):
+        cell = "(%s) * %d + RECN(%s)" % (cell, NW, its[j])
+    body += "%s@atomic out[%s] += 1;\n" % (ind, cell)
+    for j in range(n):
+        ind = ind[:-2]
+        body += "%s}\n" % ind
+    return "@kernel void %s(%s) {\n%s}\n" % (name, sig, body)
+
+
+def nest_args(k, a):
+    """run-time arguments of a nest run: loop j starts at lo / hi according to its direction (OklNest!LoopArgs)"""
+    out = []
+    for sh, p in zip(k["loops"], a):
+        up = sh["upd"] in ("preinc", "postinc", "addeq")
+        out += [{"t": "int", "v": p[0] if up else p[1]}, {"t": "int", "v": p[1] if up else p[0]}]
+    return out
+
+
 def kkey(k):
     return json.dumps(k, sort_keys=True)
 
@@ -67,6 +102,114 @@ def features(k, h, exp):
         if d["c"] not in ("lit", "var"):
             f.append("%s=%s" % (role, d["c"]))
     return f
+
+
+def judge(ctx, res, batches, index, want_of, decode, sig_of, describe, kernel_text):
+    # sig_of(case, kind, where, detail): detail = the emulator's launch message, if any
+    """Compares what every backend visited with the spec's visits.  index[bi][ki] = the spec cases
+    (one per run) of kernel ki of batch bi; want_of(case) -> Counter of expected cell values;
+    decode(cell index, case) -> value.  Python only compares and classifies."""
+    stats = collections.Counter()
+    traced = []      # (header, visited Counter, rejected, python's verdict) of every 1-d run: re-judged by TLC (VisitTrace)
+    for bi, b in enumerate(batches):
+        for m in MODES:
+            r = res[(bi, m)]
+            where = "launcher" if m in LAUNCHER_MODES else m
+            if not r.translated:
+                ctx.mismatch("translate-fail:%s" % where, "mode %s failed to translate a batch of valid kernels: %s" % (m, (r.terr or "")[:600]),
+                             [{"okl": b.okl_text, "mode": m, "err": r.terr}])
+                stats["translate_fail"] += 1
+                continue
+            if r.module_err:
+                raise Broken("emulated module for %s/%s did not build:\n%s" % (b.name, m, r.module_err[-3000:]))
+            if r.runs is None:
+                ctx.mismatch("crash:%s" % where, "running batch %s on %s: %s" % (b.name, m, (r.run_err or "")[:800]),
+                             [{"okl": b.okl_text, "mode": m, "err": r.run_err}])
+                stats["crash"] += 1
+                continue
+            for ki, cs in enumerate(index[bi]):
+                for ri, c in enumerate(cs):
+                    o = r.runs[ki][ri]
+                    stats["runs"] += 1
+                    got = collections.Counter()
+                    for idx_, val in (o["out"][0] if o["out"] else []):
+                        got[decode(idx_, c)] += val
+                    want = want_of(c)
+                    bad_launch = [l for l in o["launches"] if l["code"] != 0]
+                    kind = None
+                    if o["err"]:
+                        kind = "exception"
+                    elif bad_launch:
+                        kind = "launch-error" if bad_launch[0]["code"] == 1 else "oversized-launch"
+                    elif got != want:
+                        extra = [v for v in got if v not in want]
+                        rep = [v for v in got if v in want and got[v] > want[v]]
+                        kind = "extra-visits" if extra else "repeated-visits" if rep else "missed-visits"
+                    if "h" in c and all(not isinstance(v, tuple) for v in got) and all(not isinstance(v, tuple) for v in want):
+                        traced.append((c["h"], got, bool(o["err"] or bad_launch), kind is not None))
+                    if kind is None:
+                        stats["conform"] += 1
+                        if not want:
+                            stats["conform_empty"] += 1
+                        continue
+                    stats["mismatch"] += 1
+                    sig = sig_of(c, kind, where, bad_launch[0]["msg"] if bad_launch else "")
+                    what = ("%s on %s: %s: sequential loop visits %s, translation visited %s%s%s" %
+                            (kind, m, describe(c), sorted(want.elements(), key=str), sorted(got.elements(), key=str),
+                             (", launch: " + bad_launch[0]["msg"]) if bad_launch else "",
+                             (", error: " + o["err"][:200]) if o["err"] else ""))
+                    ctx.mismatch(sig, what, [{"case": c, "mode": m, "kernel": kernel_text(c),
+                                              "launcher": oklrun_lib.read_text(r.launcher_src) or None,
+                                              "device": oklrun_lib.read_text(r.device_src) or None,
+                                              "observed": o}])
+    validate_traces(ctx, traced, stats)
+    return stats
+
+
+def validate_traces(ctx, traced, stats, cap=40000):
+    """Second judge: the visit logs are validated by TLC against trace/VisitTrace.tla (the sequential
+    loop of OklHeaders).  Its verdicts must coincide with the comparison above, run by run."""
+    import random
+    if not traced:
+        return
+    rnd = random.Random(ctx.seed)
+    sel = list(range(len(traced)))
+    if len(sel) > cap:       # keep every deviating run, sample the conforming ones
+        devs = [i for i in sel if traced[i][3]]
+        rest = [i for i in sel if not traced[i][3]]
+        sel = sorted(devs[:cap // 4] + rnd.sample(rest, min(len(rest), cap - min(len(devs), cap // 4))))
+    path = os.path.join(ctx.tmp, "visits-%d.ndjson" % len(traced))
+    n_ev = 0
+    with open(path, "w") as f:
+        for rid in sel:
+            h, got, rejected, _ = traced[rid]
+            f.write(json.dumps({"e": "B", "r": rid, "h": h}) + "\n")
+            if rejected:
+                f.write('{"e":"X"}\n')
+                n_ev += 1
+            for v, cnt in sorted(got.items(), key=lambda t: str(t[0])):
+                vv = -1000 if v == "below" else 1000 if v == "above" else v
+                for _ in range(cnt):
+                    f.write(json.dumps({"e": "V", "v": vv}) + "\n")
+                    n_ev += 1
+            f.write(json.dumps({"e": "E", "r": rid}) + "\n")
+            n_ev += 2
+    r = ctx.tlc("trace/VisitTrace.tla", "trace/VisitTrace.cfg", workers=1, env={"TRACE": path}, timeout=2400,
+                jvm=("-Xss256m",))
+    if r.rc != 0:
+        raise Broken("trace validation did not accept the visit log (rc=%s):\n%s" % (r.rc, r.out[-2500:]))
+    tlc_bad = set()
+    for line in r.out.splitlines():
+        if line.startswith('<<"V", '):
+            tlc_bad.add(int(line.split(",")[1]))
+    py_bad = set(rid for rid in sel if traced[rid][3])
+    if tlc_bad != py_bad:
+        d = sorted(tlc_bad ^ py_bad)[:5]
+        raise Broken("the two judges disagree on runs %s (TLC VisitTrace vs python comparison), e.g. %s" %
+                     (d, [(traced[i][0], dict(traced[i][1])) for i in d[:2]]))
+    stats["trace_runs"] = len(sel)
+    stats["trace_events"] = n_ev
+    stats["trace_deviating"] = len(tlc_bad)
 
 
 def run(ctx):
@@ -109,77 +252,72 @@ def run(ctx):
             idx.append(cs)
         batches.append(Batch("c17b%d" % (b0 // BATCH), text, ks))
         index.append(idx)
+    # 3b. nests: several @outer / @inner loops around one body (dimension mapping)
+    gn = ctx.tlc("mc/MC_OklNest.tla", "mc/OklNest_gen_%s.cfg" % ("thorough" if thorough else "quick"), workers=1, timeout=2400)
+    if gn.rc != 0:
+        raise Broken("nest generation failed: rc=%s violated=%s\n%s" % (gn.rc, gn.violated, gn.out[-2500:]))
+    ncases = b_json(gn)
+    if not ncases:
+        raise Broken("no nest behaviours generated")
+    bynest = collections.OrderedDict()
+    for c in ncases:
+        c["nest"] = True
+        bynest.setdefault(kkey(c["k"]), []).append(c)
+    nhead = ("#define RECN(i) (((i) < %d) ? %d : (((i) > %d) ? %d : ((i) - (%d))))\n\n" % (N_LO, NW - 2, N_HI, NW - 1, N_LO))
+    text, ks, idx = nhead, [], []
+    for j, (kk, cs) in enumerate(bynest.items()):
+        k = cs[0]["k"]
+        text += render_nest("n%d" % j, k) + "\n"
+        ks.append({"name": "n%d" % j, "runs": [nest_args(k, c["a"]) + [{"t": "int*", "n": NW ** len(k["loops"])}] for c in cs]})
+        idx.append(cs)
+    if not os.environ.get("C17_LIMIT"):
+        batches.append(Batch("c17nest", text, ks))
+        index.append(idx)
     # 4. translate / build / run
     res = oklrun_lib.execute(ctx, batches, MODES, fanout=(8 if thorough else 4), build_workers=(8 if thorough else 4))
     # 5. compare with the spec
-    stats = collections.Counter()
-    for bi, b in enumerate(batches):
-        for m in MODES:
-            r = res[(bi, m)]
-            where = "launcher" if m in LAUNCHER_MODES else m
-            if not r.translated:
-                ctx.mismatch("translate-fail:%s" % where, "mode %s failed to translate a batch of valid kernels: %s" % (m, (r.terr or "")[:600]),
-                             [{"okl": b.okl_text, "mode": m, "err": r.terr}])
-                stats["translate_fail"] += 1
-                continue
-            if r.module_err:
-                raise Broken("emulated module for %s/%s did not build:\n%s" % (b.name, m, r.module_err[-3000:]))
-            if r.runs is None:
-                ctx.mismatch("crash:%s" % where, "running batch %s on %s: %s" % (b.name, m, (r.run_err or "")[:800]),
-                             [{"okl": b.okl_text, "mode": m, "err": r.run_err}])
-                stats["crash"] += 1
-                continue
-            for ki, cs in enumerate(index[bi]):
-                for ri, c in enumerate(cs):
-                    o = r.runs[ki][ri]
-                    stats["runs"] += 1
-                    k, h, exp = c["k"], c["h"], c["exp"]
-                    got = collections.Counter()
-                    for idx_, val in (o["out"][0] if o["out"] else []):
-                        v = ("below" if idx_ == NCELL - 2 else "above" if idx_ == NCELL - 1 else idx_ + W_LO)
-                        got[v] += val
-                    want = collections.Counter(exp)
-                    bad_launch = [l for l in o["launches"] if l["code"] != 0]
-                    kind = None
-                    if o["err"]:
-                        kind = "exception"
-                    elif bad_launch:
-                        kind = "launch-error" if bad_launch[0]["code"] == 1 else "oversized-launch"
-                    elif got != want:
-                        extra = [v for v in got if v not in want]
-                        rep = [v for v in got if v in want and got[v] > 1]
-                        miss = [v for v in want if v not in got]
-                        kind = "extra-visits" if extra else "repeated-visits" if rep else "missed-visits"
-                    if kind is None:
-                        stats["conform"] += 1
-                        if exp == []:
-                            stats["conform_empty"] += 1
-                        continue
-                    f = features(k, h, exp)
-                    if exp == []:
-                        f.append("empty")
-                    if not c["aligned"]:
-                        # one class: the comparison opposes the update (the loop is empty or runs away)
-                        sig = "contrary-direction:%s" % where
-                    else:
-                        sig = "%s:%s:%s" % (kind, where, ",".join(f))
-                    stats["mismatch"] += 1
-                    what = ("%s on %s: header `for (%s)` %s-position, args %s (init=%d bound=%d step=%d): sequential loop visits %s, "
-                            "translation visited %s%s%s" %
-                            (kind, m, render_header(k, "i"), k["pos"], c["a"], h["init"], h["bound"], h["step"], exp,
-                             sorted(got.elements(), key=str),
-                             (", launch: " + bad_launch[0]["msg"]) if bad_launch else "",
-                             (", error: " + o["err"][:200]) if o["err"] else ""))
-                    ctx.mismatch(sig, what, [{"case": c, "mode": m, "kernel": render_kernel("k", k),
-                                              "launcher": oklrun_lib.read_text(r.launcher_src, 0) or None,
-                                              "observed": o}])
+    def decode(idx_, c):
+        if c.get("nest"):
+            t = []
+            for _ in c["k"]["loops"]:
+                d = idx_ % NW
+                t.append("below" if d == NW - 2 else "above" if d == NW - 1 else d + N_LO)
+                idx_ //= NW
+            return tuple(reversed(t))
+        return "below" if idx_ == NCELL - 2 else "above" if idx_ == NCELL - 1 else idx_ + W_LO
+
+    def want_of(c):
+        return collections.Counter(tuple(t) for t in c["exp"]) if c.get("nest") else collections.Counter(c["exp"])
+
+    def sig_of(c, kind, where, detail):
+        if c.get("nest"):
+            k = c["k"]
+            return "%s:%s:nest%dx%d%s" % (kind, where, k["nouter"], len(k["loops"]) - k["nouter"], ",empty" if not c["exp"] else "")
+        f = features(c["k"], c["h"], c["exp"])
+        if c["exp"] == []:
+            f.append("empty")
+        if not c["aligned"]:
+            # one class: the comparison opposes the update (the loop is empty or runs away)
+            return "contrary-direction:%s" % where
+        return "%s:%s:%s" % (kind, where, ",".join(f))
+
+    def describe(c):
+        if c.get("nest"):
+            return "nest %s with (lo, hi) = %s" % (render_nest("n", c["k"]).replace("\n", " "), c["a"])
+        k, h = c["k"], c["h"]
+        return "header `for (%s)` %s-position, args %s (init=%d bound=%d step=%d)" % (
+            render_header(k, "i"), k["pos"], c["a"], h["init"], h["bound"], h["step"])
+
+    stats = judge(ctx, res, batches, index, want_of, decode, sig_of, describe,
+                  lambda c: render_nest("n", c["k"]) if c.get("nest") else render_kernel("k", c["k"]))
     ctx.traces_validated = stats["runs"]
     ctx.samples = [{"kernel": render_header(c["k"], "i"), "pos": c["k"]["pos"], "args": c["a"], "spec_visits": c["exp"]}
                    for c in (cases[0], cases[len(cases) // 3], cases[(2 * len(cases)) // 3], cases[-1])]
-    ctx.cov.update({"kernel_shapes": len(kernels), "spec_runs": len(cases), "backends": len(MODES),
+    ctx.cov.update({"kernel_shapes": len(kernels) + len(bynest), "spec_runs": len(cases) + len(ncases), "nest_runs": len(ncases), "backends": len(MODES),
                     "backend_runs_compared": stats["runs"], "conforming": stats["conform"],
                     "conforming_empty_loops": stats["conform_empty"], "mismatching_runs": stats["mismatch"],
-                    "batches": len(batches)})
+                    "batches": len(batches), "trace_runs_validated_by_tlc": stats["trace_runs"],
+                    "trace_events": stats["trace_events"], "trace_runs_deviating": stats["trace_deviating"]})
     ctx.assumptions += [
         "launcher backends (cuda, hip, opencl, metal, dpcpp) are executed under harness/emu: real generated launcher and device "
         "source, host emulation of the documented launch model (groups sequential, work-items real threads); no GPU",
